@@ -9,6 +9,11 @@ One case = one line = one self-contained scenario on the real hub/topics/session
   AC <A|E|P> <tok> <tok>                              {acc user=new desc.defacs}
   PP <u1auth> <A|E|P> <tok> <tok>                     {sub topic=usrB set.desc.defacs} creating a p2p topic
 
+  SS <grp|p2p> <set|sub|other|off> <af> <want> <given> <tok>
+                                                      {set sub.mode} / {sub set.sub.mode} on an EXISTING subscription
+                                                      want/given of a non-owner U: own want attached (set), while attaching
+                                                      (sub), not attached (off: hub), given changed by the owner / peer (other)
+
 A text token is "_" (JSON key absent), "-" (empty string) or hex bytes; A = no desc at all, E = desc
 without defacs, P = defacs present.
 
@@ -23,6 +28,9 @@ to the request WITHOUT defacs (NG, AC, PP) as the reference:
   unknown-letters-leave-target         a field whose text has an unknown letter holds what it held
   unknown-letters-rejected             an attached {set desc.defacs} with such a text is answered 4xx and
                                        neither field moves
+For SS the reference is the stored subscription row right before the request; the empty-text law is
+not applied to the user's own want when that want has no J (a {sub}/{set sub} without a mode un-self-bans
+by design: there the empty text means "default", not "no change").
 Finding-specific names (KNOWN_FINDINGS.txt, findings/C05.md):
   setdesc-bad-auth-text-accepted-with-anon   #2: parseTopicAccess overwrites auth's error by anon's result
   acc-bad-auth-text-masks-default            #3: replyCreateUser ignores the error and sanitises the default
@@ -47,7 +55,7 @@ def hx(s):
 
 
 def unhx(h):
-    return bytes.fromhex(h).decode("latin1")
+    return "" if h in ("-", "") else bytes.fromhex(h).decode("latin1")
 
 
 def tok_text(tok):
@@ -143,7 +151,7 @@ def gen_cases(ctx):
         for a in CLASS_TOKS:
             for n in CLASS_TOKS:
                 cases.append("NG %d P %s %s" % (ch, a, n))
-    cases.append("AC E _ _")
+    cases += ["AC E _ _", "AC A _ _ basic", "AC P %s _ basic" % hx("J!"), "AC P _ %s basic" % hx("JRW")]
     for a in CLASS_TOKS:
         for n in CLASS_TOKS:
             cases.append("AC P %s %s" % (a, n))
@@ -152,18 +160,31 @@ def gen_cases(ctx):
         cases.append("PP %d E _ _" % u)
         for a in CLASS_TOKS:
             cases.append("PP %d P %s %s" % (u, a, rng.choice(CLASS_TOKS)))
+    # subscription mode text on an existing subscription (U never holds O: it is not the owner)
+    grp_sub = [(47, 47), (7, 127), (63, 31), (47, 46), (46, 47)]
+    p2p_sub = [(31, 31), (23, 31), (31, 95), (47, 31), (30, 31)]     # sanitised, given with D, want with S and no A, no J
+    for cat, pairs in (("grp", grp_sub), ("p2p", p2p_sub)):
+        for route in ("set", "sub", "other", "off"):
+            for wa, gi in pairs:
+                for t in CLASS_TOKS:
+                    cases.append("SS %s %s 47 %d %d %s" % (cat, route, wa, gi, t))
     # seeded stream: random current modes and texts
     k = 1 if quick else 12
-    for _ in range(170 * k):
+    for _ in range(90 * k):
+        cat = rng.choice(["grp", "p2p"])
+        wa, gi = rng.choice(grp_sub + p2p_sub + [(rng.randrange(128), rng.randrange(128)), (rng.randrange(128) | 1, rng.randrange(128) | 1)])
+        cases.append("SS %s %s %d %d %d %s" % (cat, rng.choice(["set", "sub", "other", "off"]), rng.choice([47, 47, 7, 0, 63]), wa, gi,
+                                               "_" if rng.random() < 0.15 else "-" if rng.random() < 0.15 else hx(rand_valid(rng, 0.03)) if rng.random() < 0.7 else hx(rand_junk(rng))))
+    for _ in range(130 * k):
         cat = rng.choice(["me", "grp"])
         ca, cn = rng.randrange(128), rng.randrange(128)
         if rng.random() < 0.5:
             ca, cn = rng.choice(me_cur + grp_cur + [(31, 31), (63, 63), (23, 0)])
         att = 0 if rng.random() < 0.06 else 1
         cases.append("SD %s %d %d %d P %s %s" % (cat, att, ca, cn, rand_tok(rng), rand_tok(rng)))
-    for _ in range(60 * k):
+    for _ in range(45 * k):
         cases.append("NG %d P %s %s" % (rng.randrange(2), rand_tok(rng), rand_tok(rng)))
-    for _ in range(14 * k):
+    for _ in range(40 * k):
         cases.append("AC P %s %s" % (rand_tok(rng), rand_tok(rng)))
     for _ in range(40 * k):
         u = rng.choice([63, 47, 0, 255, rng.randrange(256)])
@@ -245,6 +266,11 @@ def observe(case, ans):
     w = case.split()
     d = kv(ans)
     obs = {"code": int(d.get("code", "0") or 0)}
+    if w[0] == "SS":
+        obs["att"] = d.get("att") == "1"
+        for k in ("pre", "store", "cache"):
+            obs[k] = pair(d.get(k))
+        return obs
     if w[0] == "PP":
         for k in ("store", "cache"):
             v = d.get(k)
@@ -276,10 +302,15 @@ def monitors(cases, table):
             fails.append(("site-request-crashed-or-hung", c, ans[:300]))
             continue
         obs = observe(c, ans)
+        if w[0] == "SS":
+            fails += monitor_ss(c, w, obs)
+            continue
         if w[0] == "SD":
             att, d, toks = w[2] == "1", w[5], (w[6], w[7])
             ref, places = obs, SD_PLACES
         else:
+            if w[0] == "AC":
+                w = w[:4]
             d, toks = w[-3], (w[-2], w[-1])
             kc = control_of(c)
             if kc == c or kc not in table or table[kc].startswith("PANIC"):
@@ -323,8 +354,57 @@ def monitors(cases, table):
     return fails
 
 
+def monitor_ss(c, w, obs):
+    """laws for the mode text of an existing subscription; field 0 = want (own routes), 1 = given (route other)"""
+    fails = []
+    cat, route, tok = w[1], w[2], w[6]
+    cls = tok_class(tok)
+    pre = obs.get("pre")
+    if cls == "text" or pre is None:
+        return fails
+    f = 1 if route == "other" else 0
+    if cls == "empty" and f == 0 and not pre[0] & 1:
+        return fails                      # un-self-ban: the empty text means "default" by design
+    for place in ("store", "cache"):
+        v = obs.get(place)
+        if v is None or v == pre:
+            continue
+        what = "%s want/given is %s/%s, was %s/%s" % (place, mtext(v[0]), mtext(v[1]), mtext(pre[0]), mtext(pre[1]))
+        if cls == "empty":
+            law = "empty-string-no-change"
+            if cat == "p2p" and v[f] == (pre[f] & CP2P) | APPROVE:
+                law = "sanitising-only-on-supplied-values"
+            fails.append((law, c, "the mode text of the subscription is empty/absent but " + what))
+        else:
+            fails.append(("unknown-letters-leave-target", c, "the mode text %r has an unknown letter but %s" % (tok_text(tok), what)))
+        break
+    if cls == "junk" and obs["code"] < 400:
+        fails.append(("unknown-letters-rejected", c, "a subscription mode text with an unknown letter (%r) is answered %d" % (tok_text(tok), obs["code"])))
+    return fails
+
+
+def model_query(case, ans):
+    """the request put to the model: for SS the (want, given) and the route are those the implementation was in
+    when the request was sent (an attaching {sub} may have un-self-banned the user; a session that could not
+    attach is served by the hub)"""
+    w = case.split()
+    if w[0] != "SS" or ans is None or not ans.startswith("SS "):
+        return case
+    obs = observe(case, ans)
+    if obs.get("pre") is None:
+        return case
+    route = w[2]
+    if route == "set" and not obs["att"]:
+        route = "off"
+    if route == "other" and not obs["att"]:
+        return None
+    return "SS %s %s %s %d %d %s" % (w[1], route, w[3], obs["pre"][0], obs["pre"][1], w[6])
+
+
 def model_obs(case, ans):
     w, m = case.split(), ans.split()
+    if w[0] == "SS":
+        return {"raw": ans}
     if w[0] == "SD":
         p, t = (int(m[2]), int(m[3])), (unhx(m[4]), unhx(m[5]))
         att = w[2] == "1"
@@ -338,8 +418,14 @@ def model_obs(case, ans):
 def compare(cases, impl, model):
     mism = []
     for c in cases:
-        if impl[c].startswith("PANIC") or model[c] in ("?", "") or model[c].startswith("EXC"):
-            mism.append((c, impl[c], model[c], "answer"))
+        ma = model[c][1] if isinstance(model[c], tuple) else model[c]
+        if impl[c].startswith("PANIC") or (ma is not None and (ma in ("?", "") or ma.startswith("EXC"))):
+            mism.append((c, impl[c], ma, "answer"))
+            continue
+        if c.split()[0] == "SS":
+            r = compare_ss(c, impl[c], model[c])
+            if r:
+                mism.append(r)
             continue
         io, mo = observe(c, impl[c]), model_obs(c, model[c])
         for k, mv in mo.items():
@@ -351,9 +437,42 @@ def compare(cases, impl, model):
     return mism
 
 
+def compare_ss(c, ians, mans):
+    """model[c] is (query, answer) of the derived model request, or None when the scenario left the model's frame"""
+    if mans is None:
+        return None
+    q, ans = mans
+    m = ans.split()
+    obs = observe(c, ians)
+    route = q.split()[2]
+    if m[1] == "ownerchange":
+        return None
+    if m[1] == "err":
+        code, modes = int(m[2]), obs["pre"]
+    else:
+        code, modes = int(m[2]), (int(m[3]), int(m[4]))
+    if c.split()[2] == "sub" and code in (200, 304):
+        code = 200                                  # subscriptionReply answers 200 whether or not the modes moved
+    if obs["code"] != code:
+        return (c, "code=%d" % obs["code"], "code=%d (%s -> %s)" % (code, q, ans), "code")
+    if obs["store"] != modes:
+        return (c, "store=%r" % (obs["store"],), "store=%r (%s -> %s)" % (modes, q, ans), "store")
+    if route != "off" and obs["cache"] is not None and obs["cache"] != modes:
+        return (c, "cache=%r" % (obs["cache"],), "cache=%r (%s -> %s)" % (modes, q, ans), "cache")
+    return None
+
+
 def neighbours(rng, case):
-    w = case.split()
+    w = case.split()[:4] if case.startswith("AC ") else case.split()
     res = []
+    if w[0] == "SS":
+        for t in ["_", "-", hx("N"), hx("JRW"), hx("J!")]:
+            res.append(" ".join(w[:6] + [t]))
+        for wa, gi in ((47, 47), (31, 31), (31, 95), (47, 31), (7, 127)):
+            res.append(" ".join(w[:4] + [str(wa), str(gi), w[6]]))
+        for r in ("set", "sub", "other", "off"):
+            res.append(" ".join(w[:2] + [r] + w[3:]))
+        return res
     i = len(w) - 2
     for j in (i, i + 1):
         for t in ["_", "-", hx("N"), hx("JRW"), hx("J!")]:
@@ -379,7 +498,8 @@ def is_replay(ctx):
 
 
 RULE = ("layer 3: for each site ({set desc.defacs} on 'me' and on a group topic, attached and not attached; {sub new|nch set.desc.defacs}; "
-        "{acc user=new desc.defacs}; {sub usrX set.desc.defacs} creating a p2p topic) the cross product {key absent, \"\", valid text, \"N\", text with "
+        "{acc user=new desc.defacs}; {sub usrX set.desc.defacs} creating a p2p topic; {set sub.mode} / {sub set.sub.mode} on an existing subscription of a group "
+        "and of a p2p topic: own want attached / while attaching / detached, given changed by the owner or the peer) the cross product {key absent, \"\", valid text, \"N\", text with "
         "an unknown letter} x {auth, anon} over several current default-access pairs (sanitised and NOT sanitised ones on 'me'), the request "
         "without defacs / with an empty desc, plus a seeded stream of random current modes and random texts (valid sets in any case/order, N, "
         "junk inserted into valid texts, N-combinations)")
@@ -420,11 +540,19 @@ def run_layer3(ctx):
     impl = dict(zip(cases, lines))
     fails = monitors(cases, impl)
     known = set(f["key"] for f in ctx.load_findings() if f["property"] == ctx.pid)
-    rc, mout, err = ctx.run_model("c05sites", cases)
-    if rc != 0 or len(mout) != len(cases):
+    queries = [model_query(c, impl[c]) for c in cases]
+    asked = [q for q in queries if q is not None]
+    rc, mout, err = ctx.run_model("c05sites", asked)
+    if rc != 0 or len(mout) != len(asked):
         ctx.violation("proof", "runner-crashed", "model runner c05sites failed: " + err[-1500:], {"theorem_or_obligation": "model runner"})
         return
-    model = dict(zip(cases, mout))
+    answers = dict(zip(asked, mout))
+    model = {}
+    for c, q in zip(cases, queries):
+        if c.split()[0] == "SS":
+            model[c] = None if q is None else (q, answers[q])
+        else:
+            model[c] = answers[q]
     mism = compare(cases, impl, model)
     searched = 0
     if mism and not any(f[0] not in known for f in fails):
@@ -467,11 +595,11 @@ def run_layer3(ctx):
                        "more": [{"case": a, "impl": b, "model": d} for a, b, d, _ in mism[1:10]]})
     kinds, classes, codes = {}, {}, {}
     for c in cases:
-        w = c.split()
-        site = w[0] + (":" + w[1] + (":att" if w[2] == "1" else ":detached") if w[0] == "SD" else "")
+        w = c.split()[:4] if c.startswith("AC ") else c.split()
+        site = w[0] + (":" + w[1] + (":att" if w[2] == "1" else ":detached") if w[0] == "SD" else ":" + w[1] + ":" + w[2] if w[0] == "SS" else "")
         kinds[site] = kinds.get(site, 0) + 1
-        d = w[5] if w[0] == "SD" else w[-3]
-        ck = d if d != "P" else tok_class(w[-2]) + "/" + tok_class(w[-1])
+        d = w[5] if w[0] == "SD" else "P" if w[0] == "SS" else w[-3]
+        ck = d if d != "P" else "sub:" + tok_class(w[-1]) if w[0] == "SS" else tok_class(w[-2]) + "/" + tok_class(w[-1])
         classes[ck] = classes.get(ck, 0) + 1
         co = str(observe(c, impl[c]).get("code"))
         codes[w[0] + ":" + co] = codes.get(w[0] + ":" + co, 0) + 1
@@ -480,7 +608,8 @@ def run_layer3(ctx):
         "model_correspondence_items": len(cases), "correspondence_mismatches": len(mism), "search_pool": searched,
         "monitor_failures": len([f for f in fails if f[0] not in known]),
         "known_finding_failures": len([f for f in fails if f[0] in known]), "impl_wall_s": round(t_impl, 1),
-        "samples": [{"case": c, "impl": impl[c], "model": model[c]} for c in ctx.rng.sample(cases, min(4, len(cases)))],
+        "samples": [{"case": c, "impl": impl[c], "model": model[c]} for c in ctx.rng.sample(cases, min(5, len(cases)))],
+        "subscription_requests_outside_the_model": len([c for c in cases if c.split()[0] == "SS" and (model[c] is None or "ownerchange" in model[c][1])]),
         "trusted_base": [
             "harness/overlay/server/zz_verif_c05sites_test.go: creates the user / topic rows directly in the store, sends the requests through Session.dispatchRaw, "
             "reads users.access / topics.access / the peer's subscription through the store mappers and Topic.accessAuth/accessAnon/perUser after quiescence",
